@@ -217,6 +217,7 @@ type Env struct {
 	ReadCheck  bool // verify all live pages after every transaction end
 	Ops        int
 	Dead       bool // instance unusable (engine stops applying ops)
+	LastOpLog  int  // disk log length before the most recent operation (set by the replayer)
 }
 
 // StatsObserver records what the library reports to an Observer.
